@@ -744,6 +744,61 @@ def x10(prog: Program, chk: Check) -> None:
             len(units) >= 40, "" if len(units) >= 40 else "the module shrank")
 
 
+def swapped_arguments(prog: Program, modules: Optional[Set[str]] = None):
+    """[(unit, call, parameter a, parameter b)]: calls of package callables (by signature: module
+    functions, methods with one signature across the package, constructors, super().__init__)
+    in which two positional arguments are plain names that are each the NAME of the other's
+    parameter - `f(x, transform_out, transform_in)` for `def f(x, transform_in, transform_out)`."""
+    out = []
+    n_calls = 0
+    for u in prog.units.values():
+        if isinstance(u.node, ast.Lambda):
+            continue
+        if modules is not None and u.module.short not in modules:
+            continue
+        for c in walk_local(u.node):
+            if not isinstance(c, ast.Call) or len(c.args) < 2:
+                continue
+            params = None
+            f = c.func
+            if isinstance(f, ast.Attribute) and f.attr == "__init__" and isinstance(f.value, ast.Call) \
+                    and isinstance(f.value.func, ast.Name) and f.value.func.id == "super":
+                ci = prog.class_of_unit(u)
+                if ci is not None:
+                    for b in prog.mro(ci)[1:]:
+                        if "__init__" in b.methods:
+                            params = b.methods["__init__"].params[1:]
+                            break
+            else:
+                key = f.id if isinstance(f, ast.Name) else ("." + f.attr if isinstance(f, ast.Attribute) else None)
+                params = prog.signatures.get(key) if key else None
+            if not params:
+                continue
+            n_calls += 1
+            names = [(i, a.id) for i, a in enumerate(c.args[:len(params)]) if isinstance(a, ast.Name)]
+            for (i, ai) in names:
+                for (j, aj) in names:
+                    if i < j and ai == params[j] and aj == params[i]:
+                        out.append((u, c, params[i], params[j]))
+    return out, n_calls
+
+
+def x11(prog: Program, chk: Check) -> None:
+    chk.rule("X11", "every field of a process tensor reaches the constructor parameter it is named "
+             "after: no call of a package callable (by signature; also super().__init__) passes "
+             "two plain names in each other's positions - transform_in and transform_out "
+             "exchanged on the way to the base class give a file whose two basis changes are "
+             "stored under each other's keys (invisible whenever they happen to be equal)", floor=1)
+    hits, n_calls = swapped_arguments(prog, {"process_tensor", "pt_tempo", "backends.pt_tempo_backend"})
+    for (u, c, pa, pb) in hits:
+        chk.saw(u)
+        chk.add("X11", u, f"{norm(c.func)}(..): `{pb}` passed as {pa}, `{pa}` passed as {pb}", False,
+                f"the arguments named {pa} and {pb} are handed over in each other's positions", c)
+    chk.add("X11", prog.module("process_tensor"), f"{n_calls} calls with a known signature and two or "
+            f"more positional arguments examined, {len(hits)} with exchanged names", n_calls >= 20,
+            "" if n_calls >= 20 else "fewer resolvable calls than confirmed by hand")
+
+
 def run(prog: Program, chk: Check) -> None:
     chk.explanation = (
         "Decides the structural clauses of C16: writer/reader key-table agreement (X1), field "
@@ -765,3 +820,4 @@ def run(prog: Program, chk: Check) -> None:
     chk.call(x8, prog, chk)
     chk.call(x9, prog, chk)
     chk.call(x10, prog, chk)
+    chk.call(x11, prog, chk)
